@@ -508,6 +508,33 @@ def mixed_sequences(ctx):
                         continue
                     for j in range(N):
                         check_log_output(ctx, cid, cn + '.log', dict(P0, j=j), L[j], tw, algebra, refs[j], Ss[j], float(np.linalg.norm(Ss[j])))
+                # the class exponential on the same values as a table (one row per value) and as lists of vectors / matrices
+                forms = [('list-of-vectors', lambda: [S_.copy() for S_ in Ss], {}), ('list-of-matrices', lambda: [ref.skew(S_) for S_ in Ss], {})]
+                if algebra == 'so3':
+                    forms += [('Nx3', lambda: np.array(Ss), {'so3': False}), ('Nx3/check=False', lambda: np.array(Ss), {'so3': False, 'check': False})]
+                for fn_, mk_, kw_ in forms:
+                    cid = 'C03/%s/mixed/%s/%s.Exp/%s' % (algebra, names, cn, fn_)
+                    if not ctx.want(cid):
+                        continue
+                    if N == 3 and algebra == 'so3' and fn_ == 'Nx3':
+                        continue            # a 3 x 3 table of rotation vectors cannot be told from one so(3) matrix (documented: so3=True by default)
+                    ctx.case(cid, key=cid)
+                    P0 = dict(algebra=algebra, mode='mixed-sequence', N=N, form=fn_)
+                    ok, Y = call(lambda: C.Exp(mk_(), **kw_))
+                    if not ok:
+                        ctx.note('Exp_sequence_form_refused', '%s.Exp(%s) -> %s' % (cn, fn_, type(Y).__name__))
+                        if (fn_.startswith('Nx3') or fn_ == 'list-of-vectors') and algebra == 'so3' or fn_ == 'list-of-matrices':
+                            # these forms are documented for the class exponential: a refusal that depends on the VALUES (a zero row) is a failure
+                            alt_ = (np.array([Ss_ + 0.1 for Ss_ in Ss]) if fn_.startswith('Nx3') else [Ss_ + 0.1 for Ss_ in Ss]) if fn_ != 'list-of-matrices' else [ref.skew(Ss_ + 0.1) for Ss_ in Ss]
+                            ok2, _ = call(lambda: C.Exp(alt_, **kw_))
+                            if ok2:
+                                ctx.fail(cid, cn + '.Exp', 'raises:' + type(Y).__name__, P0, '%s.Exp(%s) of %s raised %r while the same form with other values is accepted' % (cn, fn_, names, Y))
+                        continue
+                    if type(Y) is not C or len(Y.data) != N:
+                        ctx.fail(cid, cn + '.Exp', 'mismatch', dict(P0, what='count'), '%s.Exp(%s) of %d values gave %s[%s]' % (cn, fn_, N, type(Y).__name__, len(getattr(Y, 'data', []))))
+                        continue
+                    for j in range(N):
+                        check_exp_output(ctx, cid, cn + '.Exp', dict(P0, j=j), Y.data[j], Ss[j], algebra, refs[j])
     for algebra, kinds, C, TW in (('se3', kinds3, sm.SE3, sm.Twist3), ('se2', kinds2, sm.SE2, sm.Twist2)):
         cn, tn = C.__name__, TW.__name__
         for N in (2, 3):
@@ -535,6 +562,25 @@ def mixed_sequences(ctx):
                     for j in range(N):
                         th = abs(Ss[j][-1]) if algebra == 'se2' else float(np.linalg.norm(Ss[j][3:]))
                         check_log_output(ctx, cid, route.split('/')[0], dict(P0, j=j, twist=int(tw)), L[j], tw, algebra, refs[j], Ss[j], th)
+                for fn_, mk_ in (('list-of-vectors', lambda: [S_.copy() for S_ in Ss]), ('list-of-matrices', lambda: [ref.skewa(S_) for S_ in Ss])):
+                    cid = base + '/%s.Exp/%s' % (cn, fn_)
+                    if not ctx.want(cid):
+                        continue
+                    ctx.case(cid, key=cid)
+                    Pe = dict(P0, form=fn_)
+                    ok, Y = call(lambda: C.Exp(mk_()))
+                    if not ok:
+                        ok2, _ = call(lambda: C.Exp([ref_unitish(S_) for S_ in Ss] if fn_ == 'list-of-vectors' else [ref.skewa(ref_unitish(S_)) for S_ in Ss]))
+                        if ok2:
+                            ctx.fail(cid, cn + '.Exp', 'raises:' + type(Y).__name__, Pe, '%s.Exp(%s) of %s raised %r while the same form with unit twists is accepted' % (cn, fn_, names, Y))
+                        else:
+                            ctx.note('Exp_sequence_form_refused', '%s.Exp(%s) -> %s' % (cn, fn_, type(Y).__name__))
+                        continue
+                    if type(Y) is not C or len(Y.data) != N:
+                        ctx.fail(cid, cn + '.Exp', 'mismatch', dict(Pe, what='count'), '%s.Exp(%s) of %d values gave %s[%s]' % (cn, fn_, N, type(Y).__name__, len(getattr(Y, 'data', []))))
+                        continue
+                    for j in range(N):
+                        check_exp_output(ctx, cid, cn + '.Exp', dict(Pe, j=j), Y.data[j], Ss[j], algebra, refs[j])
                 W = TW([S_.copy() for S_ in Ss])
                 for route, f in ((tn + '.exp', lambda: W.exp()), (tn + '.' + cn, lambda: getattr(W, cn)())):
                     cid = base + '/' + route
@@ -553,6 +599,13 @@ def mixed_sequences(ctx):
 
 
 # --------------------------------------------------------------------------- enumeration
+
+def ref_unitish(S_):
+    """a unit twist of the same shape (rotation about z through the origin)"""
+    out = np.zeros(len(S_))
+    out[-1] = 1.0
+    return out
+
 
 def integer_cases(ctx):
     """group and algebra elements held in integer arrays (hand-typed quarter and half turns, integer translations and twists):
